@@ -145,14 +145,15 @@ pub fn choice_child(threads: usize, rounds: usize, ops: usize, seed: u64, stress
                         if r.chance(1, 2) {
                             let v = if stress { lo + step * r.below(2) as u64 } else { r.below(4) as u64 };
                             let inv = SEQ.fetch_add(1, Ordering::SeqCst);
-                            choice_of(v).write_global();
+                            // a panic inside the operation is data: the write is reported as never completed ("P")
+                            let okw = std::panic::catch_unwind(|| choice_of(v).write_global()).is_ok();
                             let res = SEQ.fetch_add(1, Ordering::SeqCst);
-                            evs.push((inv, res, opid, "w", v));
+                            evs.push((inv, res, opid, if okw { "w" } else { "P" }, v));
                         } else {
                             let inv = SEQ.fetch_add(1, Ordering::SeqCst);
-                            let v = val_of(colorchoice::ColorChoice::global());
+                            let got = std::panic::catch_unwind(|| val_of(colorchoice::ColorChoice::global()));
                             let res = SEQ.fetch_add(1, Ordering::SeqCst);
-                            evs.push((inv, res, opid, "r", v));
+                            evs.push((inv, res, opid, if got.is_ok() { "r" } else { "P" }, got.unwrap_or(0)));
                         }
                     }
                     b.wait();
